@@ -839,7 +839,12 @@ def main():
                 if not calls: raise ToolError('registration %s.%s: no call of %s (contract %s:%d)' % (cname, mname, callee, P('contracts'), cln))
                 bad = []; seen_ = []
                 for c_ in calls:
-                    arg = c_.args[0] if c_.args else None
+                    arg = c_.args[0] if c_.args else (c_.keywords[0].value if c_.keywords else None)
+                    if isinstance(arg, ast.Name):
+                        # a local that is assigned a literal tuple exactly once in this method
+                        defs_ = [n2.value for n2 in ast.walk(fdef) if isinstance(n2, ast.Assign) and any(isinstance(t2, ast.Name) and t2.id == arg.id for t2 in n2.targets)]
+                        defs_ += [n2.value for n2 in ast.walk(fdef) if isinstance(n2, ast.AnnAssign) and isinstance(n2.target, ast.Name) and n2.target.id == arg.id and n2.value is not None]
+                        if len(defs_) == 1: arg = defs_[0]
                     elts = arg.elts if isinstance(arg, (ast.Tuple, ast.List)) else None
                     if elts is None: bad.append('<not a literal tuple: cannot be decided>'); continue
                     for e_ in elts:
